@@ -42,7 +42,15 @@ pub fn base_cfg(prop: &'static str, label: String, cb: usize, hb: usize, events:
         poison: false,
         prefilled: vec![],
         deprecated_ctor: false,
+        digest: None,
     }
+}
+
+/// With a facility compiled out its key must be completely inert (C16)
+pub fn feat(mut m: Mon) -> Mon {
+    m.up_down_noop = !cfg!(feature = "history");
+    m.tab_noop = !cfg!(feature = "autocomplete");
+    m
 }
 
 pub fn caps(tier: &str) -> Caps {
@@ -85,18 +93,18 @@ pub fn summary(o: &Outcome) -> String {
 
 // ------------------------------------------------------------------ C05
 
-pub fn c05(rep: &mut Report, tier: &str, seed: u64) {
+pub fn c05(rep: &mut Report, tier: &str, seed: u64, prop: &'static str) {
     let caps = caps(tier);
     let max_cb = if tier == "quick" { 6 } else { 8 };
     let alphabet = vec![ch('a'), ch('b'), ch('é'), ch('中'), ch('𝄞'), k(Key::Bs), k(Key::Left), k(Key::Right)];
     for cb in 0..=max_cb {
         let mut cfg = base_cfg(
-            "C05",
+            prop,
             format!("editor cb={} hb=0 raw", cb),
             cb,
             0,
             alphabet.clone(),
-            Mon { editor: true, invariants: true, ..Default::default() },
+            feat(Mon { editor: true, invariants: true, ..Default::default() }),
         );
         cfg.poison = cb <= 4 || tier != "quick";
         let name = cfg.label.clone();
@@ -123,12 +131,12 @@ pub fn c05(rep: &mut Report, tier: &str, seed: u64) {
     let cfgs: Vec<(usize, usize)> = if tier == "quick" { vec![(3, 4), (4, 5)] } else { vec![(3, 4), (4, 5), (5, 6), (6, 6)] };
     for (cb, hb) in cfgs {
         let mut cfg = base_cfg(
-            "C05",
+            prop,
             format!("editor+recall+completion cb={} hb={} cmd4", cb, hb),
             cb,
             hb,
             alphabet2.clone(),
-            Mon { editor: true, invariants: true, ..Default::default() },
+            feat(Mon { editor: true, invariants: true, ..Default::default() }),
         );
         cfg.poison = tier != "quick";
         let name = cfg.label.clone();
@@ -175,9 +183,9 @@ pub fn c10(rep: &mut Report, tier: &str, seed: u64) {
 
 // ------------------------------------------------------------------ C01
 
-pub fn c01(rep: &mut Report, tier: &str, seed: u64) {
+pub fn c01(rep: &mut Report, tier: &str, seed: u64, prop: &'static str) {
     let caps = caps(tier);
-    let mon = Mon { dispatch: true, invariants: true, ..Default::default() };
+    let mon = feat(Mon { dispatch: true, invariants: true, ..Default::default() });
     let alphabet = vec![
         ch('a'),
         ch(' '),
@@ -198,7 +206,7 @@ pub fn c01(rep: &mut Report, tier: &str, seed: u64) {
         vec![(0, 0), (1, 0), (2, 3), (3, 0), (0, 4), (1, 4), (3, 4), (4, 5), (5, 0), (5, 6), (4, 6)]
     };
     for (cb, hb) in &cfgs {
-        let cfg = base_cfg("C01", format!("dispatch cb={} hb={} raw", cb, hb), *cb, *hb, alphabet.clone(), mon.clone());
+        let cfg = base_cfg(prop, format!("dispatch cb={} hb={} raw", cb, hb), *cb, *hb, alphabet.clone(), mon.clone());
         let name = cfg.label.clone();
         run_raw(rep, cfg, &caps, seed);
         if *cb >= 3 {
@@ -221,7 +229,7 @@ pub fn c01(rep: &mut Report, tier: &str, seed: u64) {
     ];
     let cfgs2: Vec<(usize, usize)> = if tier == "quick" { vec![(4, 0), (5, 0)] } else { vec![(4, 5), (5, 6), (6, 0), (7, 0)] };
     for (cb, hb) in cfgs2 {
-        let cfg = base_cfg("C01", format!("dispatch cb={} hb={} cmd4+tab", cb, hb), cb, hb, alphabet2.clone(), mon.clone());
+        let cfg = base_cfg(prop, format!("dispatch cb={} hb={} cmd4+tab", cb, hb), cb, hb, alphabet2.clone(), mon.clone());
         let name = cfg.label.clone();
         run_cmd4(rep, cfg, &caps, seed);
         rep.required.push((name, "dispatch_with_command".into()));
@@ -258,11 +266,11 @@ pub fn c06_alphabet() -> Vec<Ev> {
 
 pub fn c06(rep: &mut Report, tier: &str, seed: u64, prop: &'static str) {
     let caps = caps(tier);
-    let mon = if prop == "C15" {
+    let mon = feat(if prop == "C15" {
         Mon { flush: true, invariants: true, ..Default::default() }
     } else {
         Mon { term: true, invariants: true, ..Default::default() }
-    };
+    });
     let cfgs: Vec<(usize, usize, bool)> = if tier == "quick" {
         vec![(0, 0, false), (1, 0, false), (3, 0, false), (3, 4, false), (2, 3, true)]
     } else {
@@ -280,7 +288,7 @@ pub fn c06(rep: &mut Report, tier: &str, seed: u64, prop: &'static str) {
         cfg.short_sink = short;
         let name = cfg.label.clone();
         run_cmd4(rep, cfg, &caps, seed);
-        if prop == "C06" {
+        if prop != "C15" {
             rep.required.push((name, "term_checked_calls".into()));
         } else {
             rep.required.push((name, "flush_calls_with_output".into()));
@@ -574,4 +582,56 @@ pub fn c14(rep: &mut Report, tier: &str, seed: u64) {
         run_model(rep, &m, &caps, seed);
         rep.required.push((name, "faults_injected".into()));
     }
+}
+
+// ------------------------------------------------------------------ C16
+
+pub fn c16(rep: &mut Report, tier: &str, seed: u64) {
+    use std::collections::HashSet;
+    use std::sync::{Arc, Mutex};
+    // the C01 / C05 / C06 explorations under this build's feature set, reference configured the same way
+    c01(rep, tier, seed, "C16");
+    c05(rep, tier, seed, "C16");
+    c06(rep, tier, seed, "C16");
+    // vacuity guards written for the default build do not all apply to reduced builds
+    rep.required.retain(|(_, c)| {
+        !(c == "dispatch_with_command" || c.starts_with("history_") || c == "editor_insert_inside")
+            || (cfg!(feature = "history") && cfg!(feature = "autocomplete") && cfg!(feature = "help"))
+    });
+    // cross-build differential: on the alphabet that touches no optional facility, the labelled state
+    // graph (projected on what every build has) must be identical in all eight builds
+    let caps = caps(tier);
+    let set = Arc::new(Mutex::new(HashSet::<u64>::new()));
+    let alphabet = vec![
+        ch('a'),
+        ch('é'),
+        ch(' '),
+        ch('-'),
+        k(Key::Bs),
+        k(Key::Left),
+        k(Key::Right),
+        kh(Key::Lf, HMode::Write("o")),
+        kh(Key::Cr, HMode::Silent),
+        wr("x"),
+        Ev::SetPrompt("é> "),
+        Ev::SetPrompt("$ "),
+    ];
+    let (cb, hb) = if tier == "quick" { (3, 3) } else { (4, 4) };
+    let mut cfg = base_cfg(
+        "C16",
+        format!("feature-independent graph cb={} hb={} cmd4", cb, hb),
+        cb,
+        hb,
+        alphabet,
+        feat(Mon { term: true, dispatch: true, editor: true, flush: true, invariants: true, ..Default::default() }),
+    );
+    cfg.digest = Some(set.clone());
+    run_cmd4(rep, cfg, &caps, seed);
+    let mut v: Vec<u64> = set.lock().unwrap().iter().copied().collect();
+    v.sort();
+    let mut d: u64 = 0xcbf29ce484222325;
+    for x in &v {
+        d = (d ^ x).wrapping_mul(0x100000001b3);
+    }
+    rep.notes.push(format!("graph-digest {} distinct-projected-transitions {}", d, v.len()));
 }
